@@ -11,6 +11,13 @@ fn parts(tier: Tier) -> Vec<(TKind, usize, u32)> {
     }
 }
 
+fn ring_parts(tier: Tier) -> Vec<(usize, u32)> {
+    match tier {
+        Tier::Quick => vec![(6, 3), (6, 4)],
+        Tier::Thorough => vec![(9, 3), (9, 4), (8, 5), (8, 2)],
+    }
+}
+
 fn main() {
     let args = report::parse_args();
     vlab::util::install_quiet_panic_hook();
@@ -26,17 +33,31 @@ fn main() {
                 }
             }
         }
+        for tier in [Tier::Quick, Tier::Thorough] {
+            for (d, cap) in ring_parts(tier) {
+                if doc.part == format!("vsock-ring:depth={}:cap={}", d, cap) {
+                    std::process::exit(vlab::replay::replay_dfs(&doc, &move || c17::run_mode(TKind::Model, d, cap, true)));
+                }
+            }
+        }
         eprintln!("unknown part {}", doc.part);
         std::process::exit(2);
     }
     let mut c = Check::new("C17", args.tier, "model_checking");
-    c.rule = "DFS over every interleaving (bounded depth) of send(0,1,2,cap), recv(1,3,cap), update_credit, poll and peer packets (RW of 1,3,cap bytes only within the advertised credit, CREDIT_UPDATE after consuming / shrinking buf_alloc to 1 / growing to 8, CREDIT_REQUEST) on one established connection, per-connection capacities 1,3,4, with both byte counters preset (hook) to 0, 2^32-2/-3, 2^32-1 and 2^31 boundaries so that they wrap inside the window; reference peer tracks both credit windows and both byte streams. distinct = distinct observation signatures".into();
+    c.rule = "DFS over every interleaving (bounded depth) of send(0,1,2,cap), recv(1,3,cap), update_credit, poll and peer packets (RW of 1,3,cap bytes only within the advertised credit, CREDIT_UPDATE after consuming / shrinking buf_alloc to 1 / growing to 8, CREDIT_REQUEST) on one established connection, per-connection capacities 1,3,4, with both byte counters preset (hook) to 0, 2^32-2/-3, 2^32-1 and 2^31 boundaries so that they wrap inside the window; reference peer tracks both credit windows and both byte streams. Ring-buffer parts: reduced alphabet (peer RW of 1,2,cap bytes polled at once, recv of 1,2,cap, update_credit) to greater depth, reaching every (start, used) state of the receive ring with wrapping reads and writes. distinct = distinct observation signatures".into();
     c.assumptions = vec!["the peer honours the credit the driver advertised (a dishonest peer is C07's subject)".into()];
     for (t, d, cap) in parts(args.tier) {
         let part = format!("vsock-credit:{}:depth={}:cap={}", t.name(), d, cap);
         let mut cfg = DfsConfig::new(&part, 0);
         cfg.wall_cap = Duration::from_secs(if args.tier == Tier::Quick { 30 } else { 1800 });
         let st = dfs::explore(&cfg, &move || c17::run(t, d, cap));
+        c.add_dfs(&part, &st);
+    }
+    for (d, cap) in ring_parts(args.tier) {
+        let part = format!("vsock-ring:depth={}:cap={}", d, cap);
+        let mut cfg = DfsConfig::new(&part, 0);
+        cfg.wall_cap = Duration::from_secs(if args.tier == Tier::Quick { 30 } else { 1800 });
+        let st = dfs::explore(&cfg, &move || c17::run_mode(TKind::Model, d, cap, true));
         c.add_dfs(&part, &st);
     }
     c.finish();
